@@ -273,7 +273,7 @@ def g_left_t_interp(draw, avoid):
 
 def _g_sparse(draw, dt, size, allow_empty=True):
     """Sparse COO spec: possibly uncoalesced (duplicate coordinates), explicit zeros, nnz == 0."""
-    nd, numel = len(size), _numel(size)
+    numel = _numel(size)
     mode = draw(st.sampled_from(["plain", "plain", "plain", "dup", "zeros", "empty" if allow_empty else "plain"]))
     nnz = 0 if mode == "empty" else draw(st.integers(1, min(6, 2 * numel)))
     rows = [draw(st.lists(st.integers(0, s - 1), min_size=nnz, max_size=nnz)) for s in size]
